@@ -199,7 +199,9 @@ pub fn record(args: &[String]) -> i32 {
         });
         std::fs::write(&file, &text).unwrap();
         // process-level I/O behaviour of `exec`
-        if let Ok(prog) = rrss::frontend::parser::parse(&text) {
+        if std::env::var("VH_CLI_DET_ONLY").is_ok() {
+            // (not in the determinism-only mode)
+        } else if let Ok(prog) = rrss::frontend::parser::parse(&text) {
             let obs = crate::exec::run(&prog, &crate::exec::RunCfg { input: vec![stdin.clone()], out_budget: None, in_fail_at: None, no_events: true });
             let first_io_is_write = obs.log.iter().find_map(|e| match e {
                 crate::exec::Ev::Write(_) => Some(true),
@@ -220,6 +222,18 @@ pub fn record(args: &[String]) -> i32 {
         let variants: Vec<Vec<u8>> = if mentions_listen { vec![stdin.clone(), b"caf\xe9\nmore\n".to_vec()] } else { vec![stdin.clone()] };
         for (stdin, cmd) in variants.iter().flat_map(|v| ["exec", "lint", "parse"].into_iter().map(move |c| (v.clone(), c))) {
             if stdin != variants[0] && cmd != "exec" {
+                continue;
+            }
+            if std::env::var("VH_CLI_DET_ONLY").is_ok() {
+                // C10 at the process level: the same command four times, every observation must be the same; nothing else is judged here
+                let first = run_bin(&bin, &[cmd, &file], &stdin, false);
+                for _ in 0..3 {
+                    let again = run_bin(&bin, &[cmd, &file], &stdin, false);
+                    if again.stdout != first.stdout || again.stderr != first.stderr || again.code != first.code {
+                        emit_to(&mut f, json!({"usage":"ok","file":"ok","cmd":cmd,"lib":{"k":"nondeterministic"}}), &again, &first);
+                        break;
+                    }
+                }
                 continue;
             }
             let lib = lib_outcome(cmd, &text, &stdin);
@@ -250,6 +264,9 @@ pub fn record(args: &[String]) -> i32 {
         }
     }
     let _ = std::fs::remove_file(&file);
+    if std::env::var("VH_CLI_DET_ONLY").is_ok() {
+        return 0;
+    }
     // missing file and bad usage
     let dummy = json!({"k":"tree","dump":""});
     for cmd in ["exec", "lint", "parse"] {
